@@ -24,6 +24,12 @@ PENDING = {}
 LEVEL_TEXT = 'Seeded search over schedules, configurations, fault sequences and operation histories with reference models as oracles; a clean batch is evidence, not proof.'
 
 CHECKS = {
+    'C13': dict(engine='simgomp+simalloc', design='5/C13, 4.3',
+                technique='deterministic simulation: the unmodified compiled kernels linked against a simulated OpenMP runtime (virtual-thread teams with tape-chosen order, snapshot-isolated memory merged last-writer-wins) on a poisoned, red-zoned heap; exact rational reference',
+                note='Trusted base: simgomp/simalloc (sim/native/simrt.c), exact-arithmetic reference, NumPy. Segments between barriers are not interleaved at instruction level; snapshot isolation is the stricter memory model used instead. 0..70 samples x 0..9 features, teams of 1..64.'),
+    'C18': dict(engine='simgomp+simalloc', design='5/C18, 4.3',
+                technique='deterministic simulation: compiled counting kernel on the simulated OpenMP runtime (team size, order, snapshot isolation) over a poisoned red-zoned heap, invalid inputs probed in a forked child; exact integer counting model; algebraic laws as labelled pure post-conditions',
+                note='Trusted base: simgomp/simalloc, exact counting model, float64 MI/entropy model. 1..40 frames, 1..5 features and 2..5 states per side.'),
     'C01': dict(engine='simmpi+simalloc+history', design='5/C01',
                 technique='deterministic simulation: every clustering entry point run serially and on N simulated MPI ranks under a seeded scheduler; k-medoids accept/reject histories driven from the tape through the warm-start/proposals interface; float64 reference model checked after every sweep',
                 note='Trusted base: simmpi, the float64 metric/consistency model, NumPy. Bounds: <= 48 frames, <= 8 clusters, <= 5 sweeps, dims 1-4, 1..6 ranks. Ties may be broken either way.'),
